@@ -271,7 +271,7 @@ static DeckSpec makeDeck(vh::Rng& r, const GenCfg& g)
     if (d.hasTolcrit) d.tolcrit = r.coin() ? 0.02 : 1e-3;
     if (d.hasTolcrit && r.coin()) o.exactTol = d.tolcrit;
     for (int i = 0; i < nreg; ++i) {
-        o.zeroPc = !anyPcMask && !g.strict && r.coin(1, 8);        // max Pc = 0 and PCW given: 0*(PCW/0), see design.d/C15.md
+        o.zeroPc = !g.strict && r.coin(1, 8);        // max Pc = 0, also with PCW/PCG given: scaling factor 1 since fix eae0e8979
         o.shared = shared || d.hasTolcrit;                          // normalisation by TOLCRIT acts identically on shared nodes only
         d.regions.push_back(makeRegion(r, o));
     }
